@@ -276,7 +276,8 @@ pub fn sinc_fidelity_cfg() -> BoxedStrategy<Config> {
         any::<bool>(),
         ratio_strategy(),
         chunk_strategy(2048),
-        (8usize..=64).prop_map(|k| 8 * k),
+        // any integer length (the constructor rounds it up to a multiple of 8), half of them already multiples of 8
+        (8usize..=64, prop_oneof![4 => Just(0usize), 1 => 1usize..8]).prop_map(|(k, r)| 8 * k - r),
         0u8..6,
         0u8..4,
         prop_oneof![1 => Just(0usize), 1 => Just(2048usize), 1 => Just(3usize), 1 => Just(2047usize), 1 => Just(2usize), 8 => (0.0f64..1.0).prop_map(|u| (2048.99f64.powf(u)).floor() as usize)],
@@ -284,7 +285,7 @@ pub fn sinc_fidelity_cfg() -> BoxedStrategy<Config> {
         0u8..5,
     )
         .prop_map(|(f32, fo, ratio, chunk, sinc_len, window, interp, os, fc, kern)| {
-            let cc: f32 = rubato::calculate_cutoff::<f32>(sinc_len, window_of(window));
+            let cc: f32 = rubato::calculate_cutoff::<f32>(8 * ((sinc_len + 7) / 8), window_of(window));
             let f_cutoff = if fc < 0.0 { cc } else { fc };
             // minimum oversampling: 1 for linear / nearest, 2 for quadratic / cubic
             let os = os.max(if interp >= 2 { 1 } else { 2 });
